@@ -9,7 +9,8 @@ PROPERTY = 'C17'
 LEAN_MODULES = ['YatimlModel.Props.C17']
 THEOREMS = ['YatimlModel.C17.' + t for t in [
     'C17_errAt_one_position', 'C17_scalar_mismatch_cites_node', 'C17_missing_key_named',
-    'C17_unknown_key_named', 'C17_wrong_attribute_type_cites_value', 'C17_construct_errors_positioned']]
+    'C17_unknown_key_named', 'C17_wrong_attribute_type_cites_value', 'C17_construct_errors_positioned', 'C17_recognition_failure_positioned',
+    'C17_unrecognised_node_error_positioned']]
 RULE = ('hierarchy-free generated class models x valid documents rendered in block style x single-point '
         'corruptions (wrong scalar type, misspelt key, dropped required key, added key, unknown enum '
         'member); the real RecognitionError message is parsed: it must cite a position on the line of the '
